@@ -9,7 +9,7 @@ def check(run):
     # design level: the judge's criterion is the property. RankExplains <=> TotalPreorder is model-checked by TLC on
     # every 3x3 sign matrix (a machine that fills the matrix cell by cell) and, in the thorough tier, established
     # by Apalache for every 4x4 matrix symbolically (3^16 matrices are beyond enumeration)
-    vlib.tlc(run, "MC_Order", "CONSTANT N = 3\nSPECIFICATION Spec\nINVARIANT RankLemma\nCHECK_DEADLOCK FALSE\n", workers=4, timeout=900)
+    vlib.tlc(run, "MC_Order", "CONSTANT N = 3\nSPECIFICATION Spec\nINVARIANT RankLemma\nCHECK_DEADLOCK FALSE\n", workers=4, timeout=900, coverage=True)
     run.extra["rank_lemma"] = {"tlc_all_matrices_n": 3}
     if not quick:
         run.extra["rank_lemma"]["apalache_symbolic_n"] = 4
